@@ -6,6 +6,8 @@ import CvDriver.Mod
 import CvDriver.C20
 import CvDriver.C13
 import CvDriver.C19
+import CvDriver.C09
+import CvDriver.C10
 open Drv
 
 structure DState where
@@ -30,6 +32,12 @@ def stepLine (s : DState) (ln : Nat) (line : String) : DState × List String :=
     | some (m, o) => ({ s with ms := m }, o)
     | none =>
     match c13 ln t with
+    | some o => (s, o)
+    | none =>
+    match c09 ln t with
+    | some o => (s, o)
+    | none =>
+    match c10 ln t with
     | some o => (s, o)
     | none =>
     match c20 s.script ln t with
